@@ -61,6 +61,9 @@ func lenPreamble(rng *rand.Rand) []lenOp {
 }
 
 func lenSchedule(rng *rand.Rand, n int) []lenOp {
+	// half of the schedules use length data close to the maximum and waits of a few length clocks, so that
+	// counters expire, get re-armed and re-triggered many times within one scenario
+	short := rng.Intn(2) == 0
 	ops := lenPreamble(rng)
 	ops = append(ops, lenOp{n: rng.Intn(4096)}) // every frame-sequencer phase
 	nrx1 := []int{0xff11, 0xff16, 0xff1b, 0xff20}
@@ -73,6 +76,12 @@ func lenSchedule(rng *rand.Rand, n int) []lenOp {
 			v := rng.Intn(256)
 			if rng.Intn(2) == 0 {
 				v = []int{0x3f, 0x3e, 0x00, 0xff, 0xfe, 0x01}[rng.Intn(6)]
+			}
+			if short {
+				v = v&0xc0 | 0x3c + rng.Intn(4)
+				if c == 2 {
+					v = 0xfc + rng.Intn(4)
+				}
 			}
 			ops = append(ops, lenOp{w: true, addr: nrx1[c], v: v})
 		case r < 7:
@@ -95,6 +104,9 @@ func lenSchedule(rng *rand.Rand, n int) []lenOp {
 			case 1:
 				n = 4000 + rng.Intn(9000)
 			}
+			if short && rng.Intn(2) == 0 {
+				n = 4096 * (1 + rng.Intn(3))
+			}
 			ops = append(ops, lenOp{n: n})
 		}
 	}
@@ -103,19 +115,37 @@ func lenSchedule(rng *rand.Rand, n int) []lenOp {
 }
 
 // lenExact: a channel triggered with length data t and length enabled must stay on exactly 64-t (256-t) length clocks
-func lenExact(rng *rand.Rand) []lenOp {
+func lenExact(rng *rand.Rand, idx int) []lenOp {
 	ops := lenPreamble(rng)
 	ops = append(ops, lenOp{n: rng.Intn(4096)})
-	c := rng.Intn(4)
+	c := idx % 4
 	nrx1 := []int{0xff11, 0xff16, 0xff1b, 0xff20}[c]
 	nrx2 := []int{0xff12, 0xff17, 0xff1a, 0xff21}[c]
 	nrx4 := []int{0xff14, 0xff19, 0xff1e, 0xff23}[c]
+	// the first scenarios enumerate channel x way of arming x boundary length data, later ones are random
 	t := rng.Intn(256)
-	ops = append(ops, lenOp{w: true, addr: nrx2, v: 0xf0}, lenOp{w: true, addr: nrx1, v: t})
-	if rng.Intn(2) == 0 {
-		ops = append(ops, lenOp{n: rng.Intn(5000)})
+	if idx < 60 {
+		t = []int{0x00, 0xff, 0x3f, 0x40, 0xc0}[(idx/12)%5]
 	}
-	ops = append(ops, lenOp{w: true, addr: nrx4, v: 0xc0})
+	switch (idx / 4) % 3 {
+	case 0:
+		// length data, then trigger with length enabled
+		ops = append(ops, lenOp{w: true, addr: nrx2, v: 0xf0}, lenOp{w: true, addr: nrx1, v: t})
+		if rng.Intn(2) == 0 {
+			ops = append(ops, lenOp{n: rng.Intn(5000)})
+		}
+		ops = append(ops, lenOp{w: true, addr: nrx4, v: 0xc0})
+	case 1:
+		// the channel already plays without length; the counter is then written and enabled without a trigger
+		ops = append(ops, lenOp{w: true, addr: nrx2, v: 0xf0}, lenOp{w: true, addr: nrx4, v: 0x80}, lenOp{n: rng.Intn(9000)},
+			lenOp{w: true, addr: nrx1, v: t}, lenOp{n: rng.Intn(3000)}, lenOp{w: true, addr: nrx4, v: 0x40})
+	default:
+		// expire, trigger with the DAC off and length enabled, wait k length clocks, DAC on, trigger again without rewriting the length
+		k := rng.Intn(12)
+		ops = append(ops, lenOp{w: true, addr: nrx2, v: 0xf0}, lenOp{w: true, addr: nrx1, v: 0xff}, lenOp{w: true, addr: nrx4, v: 0xc0}, lenOp{n: 9000},
+			lenOp{w: true, addr: nrx2, v: 0x00}, lenOp{w: true, addr: nrx4, v: 0xc0}, lenOp{n: 4096*k + rng.Intn(4096)},
+			lenOp{w: true, addr: nrx2, v: 0xf0}, lenOp{w: true, addr: nrx4, v: 0xc0})
+	}
 	max := 64
 	if c == 2 {
 		max = 256
@@ -142,7 +172,7 @@ func apuGenOther(c *Ctx, w *trace.Writer) {
 			seed := rng.Int63n(1 << 40)
 			r2 := rand.New(rand.NewSource(seed))
 			if i%5 == 4 {
-				w.Put(lenRun(fmt.Sprintf("apu-len-%d", i), "lenexact", seed, lenExact(r2)))
+				w.Put(lenRun(fmt.Sprintf("apu-len-%d", i), "lenexact", seed*1000+int64(i/5), lenExact(r2, i/5)))
 			} else {
 				w.Put(lenRun(fmt.Sprintf("apu-len-%d", i), "len", seed, lenSchedule(r2, 40)))
 			}
@@ -159,7 +189,7 @@ func apuRerunOther(c *Ctx, w *trace.Writer, s *trace.Scenario) {
 	case "len":
 		w.Put(lenRun(s.ID, fam, seed, lenSchedule(rand.New(rand.NewSource(seed)), 40)))
 	case "lenexact":
-		w.Put(lenRun(s.ID, fam, seed, lenExact(rand.New(rand.NewSource(seed)))))
+		w.Put(lenRun(s.ID, fam, seed, lenExact(rand.New(rand.NewSource(seed/1000)), int(seed%1000))))
 	case "lencal":
 		rng := c.Rand(1900)
 		ops := lenPreamble(rng)
